@@ -35,22 +35,24 @@ type Spec struct {
 }
 
 type Runner struct {
-	env   *Env
-	node  *kernel.Node
-	store *CrashStore
-	spec  *Spec
-	ts    uint64
-	txOf  map[int][]*common.VersionedTransaction // step -> transactions it made
-	tsOf  map[int]uint64
-	plIdx map[int]int // pledge step -> pledger number
-	npl   int
-	Log   []string
+	env    *Env
+	node   *kernel.Node
+	store  *CrashStore
+	spec   *Spec
+	ts     uint64
+	txOf   map[int][]*common.VersionedTransaction // step -> transactions it made
+	tsOf   map[int]uint64
+	plIdx  map[int]int // pledge step -> pledger number
+	npl    int
+	lastOp uint64 // timestamp of the latest node operation
+	host   int    // chain of the step whose marker write is being interleaved (-1: none)
+	Log    []string
 }
 
 func NewRunner(env *Env, node *kernel.Node, store *CrashStore, spec *Spec) *Runner {
 	return &Runner{env: env, node: node, store: store, spec: spec,
 		ts:   env.Epoch + day + hour + uint64(time.Minute),
-		txOf: map[int][]*common.VersionedTransaction{}, tsOf: map[int]uint64{}, plIdx: map[int]int{}}
+		txOf: map[int][]*common.VersionedTransaction{}, tsOf: map[int]uint64{}, plIdx: map[int]int{}, host: -1}
 }
 
 func (r *Runner) logf(f string, a ...any) { r.Log = append(r.Log, fmt.Sprintf(f, a...)) }
@@ -210,8 +212,10 @@ func (r *Runner) runStep(i int) {
 	case "pledge":
 		// pledge hour: neither mint (7..9) nor accept (13..19) hours; a pledge
 		// needs 12h distance from every earlier node operation
-		for _, p := range r.plIdx {
-			_ = p
+		if r.lastOp > 0 {
+			if want := r.lastOp + 12*hour + uint64(time.Minute); r.ts < want {
+				r.ts = want
+			}
 		}
 		if t := r.pledge(i, st.Src[0]); t != nil {
 			txs = append(txs, t)
@@ -238,6 +242,10 @@ func (r *Runner) runStep(i int) {
 	if chainIdx < 0 || chainIdx >= len(r.env.Chains) {
 		r.logf("step %d: bad chain %d", i, chainIdx)
 		return
+	}
+	if r.host >= 0 && chainIdx == r.host {
+		// interleaved work belongs to another chain's goroutine
+		chainIdx = (chainIdx + 1) % r.env.N
 	}
 	r.txOf[i] = txs
 	// admission: the transactions arrive from peers into the cache store
@@ -300,6 +308,9 @@ func (r *Runner) runStep(i int) {
 	}
 	s.Timestamp = r.ts
 	r.tsOf[i] = s.Timestamp
+	if st.Kind == "pledge" || st.Kind == "accept" {
+		r.lastOp = s.Timestamp
+	}
 	s.Hash = s.PayloadHash()
 	if !r.sign(chain, s) {
 		r.logf("step %d: cannot sign", i)
@@ -315,9 +326,11 @@ func (r *Runner) runStep(i int) {
 				return
 			}
 			r.store.Boundary = nil
+			r.host = chainIdx
 			for _, j := range inj {
 				r.runStep(j)
 			}
+			r.host = -1
 		}
 	}
 	fin, want, err := r.node.VerifC21CosiFinalize(id, s)
